@@ -51,3 +51,12 @@ Theorem c11_flush_schedule_is_source :
       gtrue (upd (upd env0 "flushEvery" fe) "numItems" n) c = Some (Z.gtb fe 0 && Z.eqb (Z.modulo n fe) 0).
 Proof. exact Decisions.copyto_flush_schedule. Qed.
 Print Assumptions c11_flush_schedule_is_source.
+
+Theorem c11_copyto_structure_is_source :
+  In (GBin ">" (GVar "flushEvery") (GInt 0)) (conds 400 (body "Store.CopyTo")) /\
+  before "dstStore.SetCollection" "srcColl.VisitItemsAscendEx" (call_list "Store.CopyTo") = true /\
+  before "srcColl.VisitItemsAscendEx" "dstStore.Flush" (call_list "Store.CopyTo") = true /\
+  In (SAssign [GVar "dstColl"] ":=" [GCall "dstStore.SetCollection" [GVar "name"; GVar "srcColl.compare"]])
+     (match nth_error (body "Store.CopyTo") 4 with Some (SRange _ _ _ b) => b | _ => [] end).
+Proof. exact Decisions.copyto_structure. Qed.
+Print Assumptions c11_copyto_structure_is_source.
